@@ -1,0 +1,23 @@
+// Package safecbor decodes CBOR into values that hold pre-allocated curve points and scalars.
+package safecbor
+
+import (
+	"fmt"
+
+	"github.com/fxamacker/cbor/v2"
+)
+
+// Unmarshal is cbor.Unmarshal, with the decoder's panics reported as errors.
+//
+// Our types are decoded into templates whose interface fields (curve.Point, curve.Scalar) are
+// pre-allocated for the right group. For some malformed inputs - a CBOR null in the place of such a
+// field, for instance - the decoder panics instead of returning an error. Data that comes from the
+// network or from storage must never be able to do that.
+func Unmarshal(data []byte, v interface{}) (err error) {
+	defer func() {
+		if r := recover(); r != nil {
+			err = fmt.Errorf("cbor: malformed data: %v", r)
+		}
+	}()
+	return cbor.Unmarshal(data, v)
+}
